@@ -283,6 +283,34 @@ Example backtick_inside_unreadable :
   \/ snd (observe (parse_whole true false 40 (print (fun _ => true) (VBStr [Rune 97; Rune 96; Rune 98])))) <> [SStr true [97; 96; 98]].
 Proof. right. vm_compute. discriminate. Qed.
 
+(* acceptance: a 0x / 0o prefixed ULL literal with valid digits and a value below 2^64 is converted to that value
+   (also when all digits are zero: 0x0ULL, 0o000ULL) *)
+Theorem ull_prefixed_accepted : forall pf n h hs, (n = NUHex \/ n = NUOct) ->
+  Forall (fun c => hexd c /\ digit_of c < notation_base n) (h :: hs) ->
+  pos_value (notation_base n) (map digit_of (h :: hs)) < 2 ^ 64 ->
+  atom_value pf (mkTok TUint64 (spell n false (h :: hs))) = Some (RUint (pos_value (notation_base n) (map digit_of (h :: hs)))).
+Proof. exact PrinterProofs.ull_prefixed_accepted. Qed.
+Print Assumptions ull_prefixed_accepted.
+
+(* ---- front ends that deliver the text in pieces: however the printed text is cut (the REPL reader: into its lines, each
+   with its newline), the reader returns the value — by C13's pieces_is_whole composed with read_print_data ---- *)
+Theorem read_print_data_pieces : forall is_print v fuel pieces, dat is_print false v -> (vsize v + 3 <= fuel)%nat ->
+  concat pieces = print is_print v ->
+  observe (parse_pieces true false fuel pieces) = (StDone, [to_sexp v]).
+Proof. exact PrinterProofs.read_print_data_pieces. Qed.
+Print Assumptions read_print_data_pieces.
+
+Theorem read_print_repl : forall is_print v fuel, dat is_print false v -> (vsize v + 3 <= fuel)%nat ->
+  observe (parse_pieces true false fuel (split_lines (print is_print v))) = (StDone, [to_sexp v]).
+Proof. exact PrinterProofs.read_print_repl. Qed.
+Print Assumptions read_print_repl.
+
+(* a backtick string with an empty line and a line of blanks inside, typed line by line *)
+Example repl_blank_lines :
+  observe (parse_pieces true false 40 (split_lines (print (fun _ => true) (VArr [VBStr [Rune 97; Rune 10; Rune 10; Rune 32; Rune 10; Rune 98]; VInt (-2)]))))
+  = (StDone, [SArr false [SStr true [97; 10; 10; 32; 10; 98]; SInt (-2)]]).
+Proof. vm_compute. reflexivity. Qed.
+
 (* ---- non-vacuity ---- *)
 Definition ascii_print (c : Z) : bool := (32 <=? c) && (c <=? 126).
 
